@@ -13,6 +13,7 @@ CONSTANTS
   Srvs = {1, 2}
   Ots <- OtsTwo
   Coes <- CoesOne
+  Flts <- FltsOne
   SharedContextTable = TRUE
   ExpireSessions = FALSE
   RandArgs = FALSE
